@@ -5,8 +5,8 @@
 # failed only if it fails in every attempt. Deselected because they do not pass in this sandbox even on the pinned commit
 # (not in BASELINE stable_pass / order dependent): test_ae.py::TestAEGoodAssociation::test_association_timeouts,
 # ::test_connection_timeout, test_utils.py::TestSetUID::test_no_validation (passes only in whole-suite order).
-# usage: repo_tests_all.sh <repo_dir> [parallelism]   -> exit 1 if any test failed in every attempt
-REPO=${1:-/repo}; P=${2:-8}
+# usage: repo_tests_all.sh <repo_dir> [parallelism] [all|core|apps]   -> exit 1 if any test failed in every attempt
+REPO=${1:-/repo}; P=${2:-8}; MODE=${3:-all}   # MODE: all | core (pynetdicom/tests only) | apps
 cd "$REPO" || exit 2
 OUT=$(mktemp -d /var/tmp/repotests.XXXXXX)
 DESEL="--deselect pynetdicom/tests/test_ae.py::TestAEGoodAssociation::test_association_timeouts --deselect pynetdicom/tests/test_ae.py::TestAEGoodAssociation::test_connection_timeout --deselect pynetdicom/tests/test_utils.py::TestSetUID::test_no_validation"
@@ -19,8 +19,8 @@ one() { # $1 = test file, $2 = attempt number
 export -f one
 export OUT REPO DESEL
 
-find pynetdicom/tests -name 'test_*.py' | sort | xargs -P "$P" -I{} bash -c 'one {} 1'
-find pynetdicom/apps -name 'test_*.py' | sort | xargs -P 1 -I{} bash -c 'one {} 1'
+[ "$MODE" != apps ] && find pynetdicom/tests -name 'test_*.py' | sort | xargs -P "$P" -I{} bash -c 'one {} 1'
+[ "$MODE" != core ] && find pynetdicom/apps -name 'test_*.py' | sort | xargs -P 1 -I{} bash -c 'one {} 1'
 
 for attempt in 2 3; do
   prev=$((attempt - 1))
